@@ -10,6 +10,8 @@ use std::any::TypeId;
 struct EvA; struct EvB;
 
 #[kani::proof]
+#[kani::stub(core::any::TypeId::of, crate::vh::stub_typeid_of)]
+#[kani::stub(<core::any::TypeId as crate::vh::PEq>::eq, crate::vh::stub_typeid_eq)]
 #[kani::unwind(14)]
 fn bundle_reactor_types_in_order()
 {
@@ -52,6 +54,8 @@ fn bundle_reactor_types_in_order()
 
 /// EntityTriggerBundle::new_bundle names the given entity in every member (C16: add() registers for THAT entity).
 #[kani::proof]
+#[kani::stub(core::any::TypeId::of, crate::vh::stub_typeid_of)]
+#[kani::stub(<core::any::TypeId as crate::vh::PEq>::eq, crate::vh::stub_typeid_eq)]
 #[kani::unwind(6)]
 fn entity_bundle_names_entity()
 {
